@@ -148,6 +148,7 @@ fn defs() -> &'static [CheckDef] {
                     Scen { name: "6lowpan-pair", weight: 2, run: sixlo_scn },
                     Scen { name: "slaac-node", weight: 1, run: slaac_scn },
                     Scen { name: "neighbour-population", weight: 1, run: neigh_scn },
+                    Scen { name: "raw-pair", weight: 1, run: raw_scn },
                 ],
                 rule: "every call into the library runs under catch_unwind and a watchdog; one run = one seeded scenario execution (adversarial frame sequences, scripted TCP peers, two-node faulty links); non-trivial per scenario rule; distinct = event-log hash",
                 assumptions: vec!["build profile: release with debug-assertions and overflow-checks (what a development build of a user sees)"],
@@ -278,6 +279,7 @@ fn defs() -> &'static [CheckDef] {
                     Scen { name: "6lowpan-pair", weight: 2, run: sixlo_scn },
                     Scen { name: "slaac-node", weight: 1, run: slaac_scn },
                     Scen { name: "neighbour-population", weight: 1, run: neigh_scn },
+                    Scen { name: "raw-pair", weight: 1, run: raw_scn },
                     Scen { name: "adversary-any-medium", weight: 3, run: adv_any },
                     Scen { name: "injector", weight: 2, run: injector },
                 ],
@@ -304,6 +306,7 @@ fn defs() -> &'static [CheckDef] {
                     Scen { name: "6lowpan-pair", weight: 2, run: sixlo_scn },
                     Scen { name: "slaac-node", weight: 1, run: slaac_scn },
                     Scen { name: "neighbour-population", weight: 1, run: neigh_scn },
+                    Scen { name: "raw-pair", weight: 1, run: raw_scn },
                     Scen { name: "adversary-any-medium", weight: 3, run: adv_any },
                     Scen { name: "injector", weight: 2, run: injector },
                 ],
